@@ -284,6 +284,23 @@ func (cs c16Case) build() (loadCase, map[string]*string, map[string]string, bool
 		svc["label_file"] = l
 	}
 	doc := map[string]any{"services": map[string]any{"svc": svc}}
+	if cs.NFiles > 0 && !mustFail {
+		// a sibling service sharing the same env files after a private first file: what `svc` gets must
+		// not depend on it (and vice versa: checked in c16Check through SIBLING_ONLY)
+		var l []any
+		l = append(l, map[string]any{"path": "./envs/sibling.env"})
+		for f := 0; f < cs.NFiles; f++ {
+			l = append(l, map[string]any{"path": fmt.Sprintf("./envs/file%d.env", f), "required": cs.Required[f]})
+		}
+		doc["services"].(map[string]any)["sibling"] = map[string]any{"image": "busybox", "env_file": l}
+		var sb strings.Builder
+		sb.WriteString("SIBLING_ONLY=yes\n")
+		for _, k := range cs.Keys {
+			// the sibling defines every referenced key differently in its private first file
+			sb.WriteString(fmt.Sprintf("%s=sibling-%s\n", k.Name, k.Name))
+		}
+		files = append(files, memFile{Name: "envs/sibling.env", Content: sb.String()})
+	}
 	files = append(files, memFile{Name: "compose.yaml", Content: emitYAML(doc, nil)})
 	lc := loadCase{Files: files, Main: []string{"compose.yaml"}, Env: penv, Opts: loadOpts{DiscardEnvFiles: cs.Discard}}
 	return lc, want, wantLabels, mustFail, unspecified
@@ -372,6 +389,46 @@ func c16Check(c *Ctx, cs c16Case) *Failure {
 	} else {
 		c.Label("unspecified:valueless-key-only-in-env-file")
 	}
+	if sib, ok := r.Project.Services["sibling"]; ok {
+		// the sibling reads its private file first, then the shared ones: references inside the shared files
+		// must see the sibling's own earlier definitions, and `svc` must not see any of them
+		if v := sib.Environment["SIBLING_ONLY"]; v == nil || *v != "yes" {
+			return failf("c16:sibling-environment", "sibling lost its private env file: %s", envStr(sib.Environment))
+		}
+		if _, leaked := s.Environment["SIBLING_ONLY"]; leaked {
+			return failf("c16:environment-leaks-between-services", "a variable of another service's env file reached svc: %s", envStr(s.Environment))
+		}
+		for _, k := range cs.Keys {
+			if k.RefTo == "" || k.EnvMode != "" {
+				continue
+			}
+			// for the sibling the referenced key is defined by its private first file
+			last := -1
+			for f, in := range k.InFiles {
+				if in && !cs.Missing[f] {
+					last = f
+				}
+			}
+			if last < 0 {
+				continue
+			}
+			want := "sibling-" + k.RefTo
+			for f := 0; f < last; f++ { // earlier files only: the lookup wins over earlier lines of the same file
+				for _, o := range cs.Keys {
+					if o.Name == k.RefTo && f < len(o.InFiles) && o.InFiles[f] && !cs.Missing[f] {
+						want = fmt.Sprintf("f%d-%s", f, o.Name)
+					}
+				}
+			}
+			if got := sib.Environment[k.Name]; got == nil || *got != want+"-r" {
+				g := "<nil>"
+				if got != nil {
+					g = *got
+				}
+				return failf("c16:shared-env-file-evaluated-for-another-service", "sibling: %s = %q, reference %q (the shared file must be evaluated against the sibling's own earlier files)\n%s", k.Name, g, want+"-r", desc())
+			}
+		}
+	}
 	gotLabels := map[string]string(s.Labels)
 	if len(gotLabels) != len(wantLabels) {
 		return failf("c16:wrong-labels", "labels %v, reference %v\n%s", gotLabels, wantLabels, desc())
@@ -397,8 +454,10 @@ func c16Check(c *Ctx, cs c16Case) *Failure {
 		if cs.NFiles > 0 && len(bs.EnvFiles) != cs.NFiles {
 			return failf("c16:env-file-references-lost", "without discard the service has %d env_file entries, expected %d", len(bs.EnvFiles), cs.NFiles)
 		}
-		bs.EnvFiles, bs.LabelFiles = nil, nil
-		b.Services["svc"] = bs
+		for n, sv := range b.Services {
+			sv.EnvFiles, sv.LabelFiles = nil, nil
+			b.Services[n] = sv
+		}
 		if !projectsEqual(a, b) {
 			return failf("c16:discard-changed-more-than-file-references", "discard changed more than env_file/label_file:\n%s", projectDiff(b, a))
 		}
